@@ -288,6 +288,12 @@ def main(pid, level, rule, body):
     """standard entry point of a check module: body(run) does the work"""
     run = Run(pid, level, rule)
     try:
+        import passlib
+        import libpass
+        for m in (passlib, libpass):
+            if not os.path.realpath(m.__file__).startswith(os.path.realpath(REPO) + os.sep):
+                run.set_inconclusive(f"{m.__name__} was imported from {m.__file__}, not from {REPO}")
+        run.extra["repo"] = REPO
         body(run)
     except SystemExit:
         raise
